@@ -1,7 +1,7 @@
 """Child process for C13: runs one index command and dies right before its k-th external effect.
 
 usage: crash_child.py ZDIR create|reindex CRASH_AT YYYY-MM-DD TRACE_FILE
-Effects: opening a file for writing (write_text / open('w')), Path.unlink, Session.commit.
+Effects: opening a file for writing (write_text / Path.open / open), unlink / remove, rename / replace, rmdir, Session.commit.
 """
 import os
 import sys
@@ -44,16 +44,45 @@ def p_open(self, mode="r", *a, **k):
     return orig_open(self, mode, *a, **k)
 
 
-orig_unlink = pathlib.Path.unlink
+import builtins  # noqa: E402
 
 
-def p_unlink(self, *a, **k):
-    effect("unlink:" + os.path.relpath(str(self), zdir))
-    return orig_unlink(self, *a, **k)
+def _rel(p):
+    try:
+        return os.path.relpath(os.fspath(p), zdir)
+    except Exception:  # noqa: BLE001
+        return str(p)
 
 
+def _inside(p):
+    try:
+        return not _rel(p).startswith("..")
+    except Exception:  # noqa: BLE001
+        return False
+
+
+# deletions and renames, whoever performs them (pathlib goes through these os functions)
+for _name, _label in (("unlink", "unlink"), ("remove", "unlink"), ("rename", "rename"), ("replace", "rename"), ("rmdir", "rmdir")):
+    def _mk(orig, label):
+        def f(path, *a, **k):
+            if _inside(path):
+                effect("%s:%s" % (label, _rel(path)))
+            return orig(path, *a, **k)
+        return f
+    setattr(os, _name, _mk(getattr(os, _name), _label))
+
+# open(..., "w") that does not go through pathlib
+orig_builtin_open = builtins.open
+
+
+def b_open(file, mode="r", *a, **k):
+    if isinstance(mode, str) and ("w" in mode or "a" in mode or "+" in mode or "x" in mode) and isinstance(file, (str, os.PathLike)) and _inside(file):
+        effect("write:" + _rel(file))
+    return orig_builtin_open(file, mode, *a, **k)
+
+
+builtins.open = b_open
 pathlib.Path.open = p_open
-pathlib.Path.unlink = p_unlink
 
 from sqlalchemy.orm import Session  # noqa: E402
 
